@@ -4,6 +4,7 @@ import (
 	"encoding/json"
 	"fmt"
 	"os"
+	"os/exec"
 	"path/filepath"
 	"strings"
 )
@@ -18,6 +19,8 @@ type replayFile struct {
 	Verdict    string `json:"verdict"`
 	Solver     string `json:"solver"`
 	Reason     string `json:"reason"`
+	Goal       string `json:"smt_goal,omitempty"`
+	Inputs     map[string]string `json:"counterexample_inputs,omitempty"`
 	Model      string `json:"solver_output"`
 	Replayed   bool   `json:"replayed_on_real_code"`
 	ReplayTest string `json:"replay_test,omitempty"`
@@ -32,7 +35,7 @@ func writeReplay(dir, property string, o *Obligation, P *Program, repo string) s
 		name = name[:150]
 	}
 	path := filepath.Join(dir, name+".json")
-	rf := replayFile{Property: property, Obligation: o.Name, Kind: o.Kind, Function: o.Fn, Clause: o.Src, Verdict: o.Verdict, Solver: o.Solver, Model: o.Model}
+	rf := replayFile{Property: property, Obligation: o.Name, Kind: o.Kind, Function: o.Fn, Clause: o.Src, Verdict: o.Verdict, Solver: o.Solver, Model: o.Model, Goal: "reach: " + o.Reach.S + " goal: " + o.Goal.S, Inputs: o.Inputs}
 	if P != nil && o.Pos.IsValid() {
 		ps := P.Fset.Position(o.Pos)
 		rf.Position = fmt.Sprintf("%s:%d", strings.TrimPrefix(ps.Filename, repo+"/"), ps.Line)
@@ -103,6 +106,32 @@ type replayGen struct {
 
 var replayGens []replayGen
 
+// runReplayTest injects test (a _test.go source) into package pkg of repo through a build overlay
+// (nothing is written into the repository) and runs it. The replay reproduces when the test
+// fails and prints the marker line.
 func runReplayTest(repo, pkg, test string) (string, bool) {
-	return "", false
+	dir, err := os.MkdirTemp("", "vreplay")
+	if err != nil {
+		return err.Error(), false
+	}
+	defer os.RemoveAll(dir)
+	if err := writeOverlay(repo, dir); err != nil {
+		return err.Error(), false
+	}
+	tf := filepath.Join(dir, "zz_verif_replay_test.go")
+	os.WriteFile(tf, []byte(test), 0o644)
+	red, _ := os.ReadFile(filepath.Join(dir, "ipfs_reduced.go"))
+	_ = red
+	ov := fmt.Sprintf("{\"Replace\": {%q: %q, %q: %q}}\n", filepath.Join(repo, "ipfs", "ipfs.go"), filepath.Join(dir, "ipfs_reduced.go"),
+		filepath.Join(repo, pkg, "zz_verif_replay_test.go"), tf)
+	os.WriteFile(filepath.Join(dir, "ov.json"), []byte(ov), 0o644)
+	cmd := exec.Command("go", "test", "-overlay", filepath.Join(dir, "ov.json"), "-vet=off", "-count=1", "-timeout", "120s", "-run", "TestVerifReplay", "./"+pkg)
+	cmd.Dir = repo
+	cmd.Env = append(os.Environ(), "GOFLAGS=-mod=mod", "GOPROXY=off", "GOSUMDB=off", "GOTOOLCHAIN=local")
+	out, err := cmd.CombinedOutput()
+	o := string(out)
+	if len(o) > 4000 {
+		o = o[:4000]
+	}
+	return o, err != nil && strings.Contains(o, "VERIF-REPLAY-VIOLATION")
 }
